@@ -101,6 +101,8 @@ type Run struct {
 	simTime  int64
 	cleanup  []func()
 	logLines int
+	// failNote, if set, may prepend a context marker to violation messages
+	failNote func() string
 }
 
 func newRun(t *Tape) *Run {
@@ -145,6 +147,9 @@ func (r *Run) Tick(steps int64, ms int64) { r.simSteps += steps; r.simTime += ms
 // Fail reports a violation and ends the run.
 func (r *Run) Fail(oracle string, format string, a ...interface{}) {
 	msg := fmt.Sprintf(format, a...)
+	if r.failNote != nil {
+		msg = r.failNote() + msg
+	}
 	r.Logf("VIOLATION %s: %s", oracle, msg)
 	panic(violationPanic{&Violation{Prop: r.Prop, Oracle: oracle, Msg: msg, Step: r.cur}})
 }
@@ -208,6 +213,7 @@ func panicOrigin(stack []uintptr) (fn string, file string, harness bool) {
 		name := f.Function
 		if name != "" && !strings.HasPrefix(name, "runtime.") && !strings.HasPrefix(name, "internal/") &&
 			!strings.Contains(name, "qedsim.(*Run).Fail") && !strings.Contains(name, "qedsim.(*Run).Bug") &&
+			!strings.Contains(name, "qedsim.(*simLogger)") && !strings.Contains(name, "qedsim.(*faultStore)") &&
 			!strings.HasPrefix(name, "testing/synctest") && !strings.HasPrefix(name, "testing.") {
 			return name, fmt.Sprintf("%s:%d", f.File, f.Line), strings.HasPrefix(name, "qedsim.")
 		}
@@ -366,7 +372,7 @@ func loadFindings(path string) error {
 
 func matchFinding(v *Violation) *Finding {
 	for _, f := range findings {
-		if f.Property == v.Prop && f.Oracle == v.Oracle && f.re.MatchString(v.Msg) {
+		if f.Property == v.Prop && (f.Oracle == "" || f.Oracle == v.Oracle) && f.re.MatchString(v.Msg) {
 			return f
 		}
 	}
